@@ -884,6 +884,18 @@ func checkNeg(r *common.Run, c negCase, snaps []snap, ec string, lines []string)
 		if f.id != in.ID || in.Version.String() != "1.0" || (f.to != "" && in.To.String() != hto) || (f.from != "" && in.From.String() != hfrom) {
 			r.Fail("header-info", "info", lines, fmt.Sprintf("header %d accepted but recorded as %s", k+1, infoStr(in)))
 		}
+		// a header that names no to / from (absent OR present but empty) leaves the address that is
+		// already established for that direction in place
+		estTo, estFrom := orig, loc
+		if c.recv {
+			estTo, estFrom = loc, orig
+		}
+		if cj, ok := canon(estTo); ok && f.to == "" && in.To.String() != cj {
+			r.Fail("header-info", "established-address-erased", lines, fmt.Sprintf("header %d names no to; In().To was %q and is now %q", k+1, cj, in.To.String()))
+		}
+		if cj, ok := canon(estFrom); ok && f.from == "" && in.From.String() != cj {
+			r.Fail("header-info", "established-address-erased", lines, fmt.Sprintf("header %d names no from; In().From was %q and is now %q", k+1, cj, in.From.String()))
+		}
 		// what is established now
 		if c.recv {
 			if f.from != "" {
@@ -1687,6 +1699,24 @@ func headerVariants(ws bool, from, to string) []string {
 	add(func(h *hv) { h.to = "" })
 	add(func(h *hv) { h.from = "" })
 	add(func(h *hv) { h.to, h.from = "", "" })
+	// round F: PRESENT BUT EMPTY attributes (to='' is not the same document as no to at all, but it
+	// carries the same information: nothing).  An empty to / from / xml:lang / id must be treated like
+	// an absent one: it neither satisfies a demand (id) nor replaces or ERASES what is established.
+	for _, pos := range []bool{false, true} {
+		put := func(h *hv, t string) {
+			if pos {
+				h.post += t
+			} else {
+				h.pre += t
+			}
+		}
+		add(func(h *hv) { h.to = ""; put(h, " to=''") })
+		add(func(h *hv) { h.from = ""; put(h, " from=''") })
+		add(func(h *hv) { h.to, h.from = "", ""; put(h, " to='' from=''") })
+		add(func(h *hv) { h.id = ""; put(h, " id=''") })
+		add(func(h *hv) { put(h, " xml:lang=''") })
+		add(func(h *hv) { h.to = ""; put(h, ` to=""`); h.dq = true })
+	}
 	for _, v := range []string{"other.example", "user@example.net/r", "a@@b", "@example.net", "example.net/", "EXAMPLE.net"} {
 		v := v
 		add(func(h *hv) { h.to = v })
@@ -1949,6 +1979,13 @@ func Run(r *common.Run) error {
 					}
 				}
 			}
+			// ---- round F: every variant FIRST, then a good header (what a header leaves behind shows in
+			// the following step: the next header is judged against the addresses the first one left) ----
+			for _, s2s := range []bool{false, true} {
+				for _, h := range vs {
+					runNeg(r, negCase{recv: recv, ws: ws, s2s: s2s, loc: locA, orig: origA, hdrs: []string{h, good, good}}, "neg-then-good")
+				}
+			}
 			// three streams, addresses drifting
 			pool := []string{"", from, to, "other.example", "user@example.net/r"}
 			cnt := r.Pick(150, 2000)
@@ -1961,6 +1998,13 @@ func Run(r *common.Run) error {
 					}
 					if rnd.Chance(1, 2) {
 						h.from = pool[rnd.Intn(len(pool))]
+					}
+					// absent or present but empty
+					if h.to == "" && rnd.Chance(1, 2) {
+						h.pre += " to=''"
+					}
+					if h.from == "" && rnd.Chance(1, 2) {
+						h.post += " from=''"
 					}
 					hs = append(hs, mkHdr(ws, h))
 				}
@@ -1976,6 +2020,7 @@ func Run(r *common.Run) error {
 
 	// ---- near misses of the established addresses ----
 	nearMissCases(r, r.Pick(6, 24))
+	r.Exhaustive = append(r.Exhaustive, "headers with PRESENT BUT EMPTY to / from / id / xml:lang (before / after the other attributes, both quote styles) x role x framing x s2s, single, after a restart, addresses unknown, and FOLLOWED by two good headers; every header variant followed by good headers")
 	r.Exhaustive = append(r.Exhaustive, "headers whose to / from is a near miss of the established address (the same octets cut differently into local / domain / resource, one octet less / more, bare vs full, domain only) x role x framing x s2s, single, after a restart, after the addresses were learned")
 
 	// ---- header exchange in a hostile environment: tee, write failures, cancellation ----
